@@ -1,0 +1,171 @@
+//go:build verif
+
+package uasc
+
+// Hooks for the verification machinery in /verif. This file is only compiled
+// with -tags verif; it adds read-only probes and constructors that put a
+// channel instance in a chosen state. It changes no existing code.
+
+import (
+	"encoding/binary"
+
+	"github.com/gopcua/opcua/ua"
+	"github.com/gopcua/opcua/uapolicy"
+)
+
+// VerifChunkResult describes one symmetric chunk produced by signAndEncrypt.
+type VerifChunkResult struct {
+	MaxBody   uint32 // maxBodySize computed by SetMaximumBodySize(chunkSize)
+	ChunkLen  int    // length of the secured chunk for a body of BodyLen bytes
+	SizeField uint32 // MessageSize field of the secured chunk
+	Chunk     []byte // the secured chunk
+	Body      []byte // body recovered by the peer instance's verifyAndDecrypt (nil on error)
+	PeerErr   error  // error of the peer's verifyAndDecrypt
+}
+
+func verifInstance(policyURI string, mode ua.MessageSecurityMode, localNonce, remoteNonce []byte) (*channelInstance, error) {
+	algo, err := uapolicy.Symmetric(policyURI, localNonce, remoteNonce)
+	if err != nil {
+		return nil, err
+	}
+	sc := &SecureChannel{cfg: &Config{SecurityPolicyURI: policyURI, SecurityMode: mode}}
+	c := newChannelInstance(sc)
+	c.algo = algo
+	c.state = channelActive
+	return c, nil
+}
+
+// VerifMaxBodySize returns the maximum body size the channel computes for a
+// policy, mode and chunk size.
+func VerifMaxBodySize(policyURI string, mode ua.MessageSecurityMode, chunkSize int, localNonce, remoteNonce []byte) (uint32, error) {
+	c, err := verifInstance(policyURI, mode, localNonce, remoteNonce)
+	if err != nil {
+		return 0, err
+	}
+	c.SetMaximumBodySize(chunkSize)
+	return c.maxBodySize, nil
+}
+
+// VerifSymmetricChunk builds an MSG chunk with a body of bodyLen bytes (filled
+// from fill, repeated), secures it with signAndEncrypt under the given policy,
+// mode and nonces, and lets a peer instance (nonces swapped) verify and decrypt it.
+func VerifSymmetricChunk(policyURI string, mode ua.MessageSecurityMode, chunkSize, bodyLen int, fill byte, localNonce, remoteNonce []byte) (*VerifChunkResult, error) {
+	c, err := verifInstance(policyURI, mode, localNonce, remoteNonce)
+	if err != nil {
+		return nil, err
+	}
+	c.SetMaximumBodySize(chunkSize)
+	res := &VerifChunkResult{MaxBody: c.maxBodySize}
+
+	m := &Message{MessageHeader: &MessageHeader{
+		Header:                  NewHeader(MessageTypeMessage, ChunkTypeFinal, 7),
+		SymmetricSecurityHeader: NewSymmetricSecurityHeader(9),
+		SequenceHeader:          NewSequenceHeader(1, 1),
+	}}
+	b := make([]byte, 24+bodyLen)
+	copy(b, "MSGF")
+	binary.LittleEndian.PutUint32(b[4:], uint32(len(b)))
+	binary.LittleEndian.PutUint32(b[8:], 7)
+	binary.LittleEndian.PutUint32(b[12:], 9)
+	binary.LittleEndian.PutUint32(b[16:], 1)
+	binary.LittleEndian.PutUint32(b[20:], 1)
+	for i := 24; i < len(b); i++ {
+		b[i] = fill + byte(i)
+	}
+	want := append([]byte(nil), b[24:]...)
+
+	out, err := c.signAndEncrypt(m, b)
+	if err != nil {
+		return res, err
+	}
+	res.Chunk = out
+	res.ChunkLen = len(out)
+	if len(out) >= 8 {
+		res.SizeField = binary.LittleEndian.Uint32(out[4:])
+	}
+
+	peer, err := verifInstance(policyURI, mode, remoteNonce, localNonce)
+	if err != nil {
+		return res, err
+	}
+	mc := new(MessageChunk)
+	if _, err := mc.Decode(out); err != nil {
+		res.PeerErr = err
+		return res, nil
+	}
+	data, err := peer.verifyAndDecrypt(mc, out)
+	if err != nil {
+		res.PeerErr = err
+		return res, nil
+	}
+	// data = sequence header + body
+	if len(data) >= 8 {
+		res.Body = data[8:]
+	}
+	_ = want
+	return res, nil
+}
+
+// VerifPendingHandlers returns the number of requests waiting for a response.
+func (s *SecureChannel) VerifPendingHandlers() int {
+	s.handlersMu.Lock()
+	defer s.handlersMu.Unlock()
+	return len(s.handlers)
+}
+
+// VerifBufferedChunks returns the number of request ids, chunks and bytes held
+// for incomplete messages.
+func (s *SecureChannel) VerifBufferedChunks() (ids, chunks, bytes int) {
+	s.chunksMu.Lock()
+	defer s.chunksMu.Unlock()
+	for _, cs := range s.chunks {
+		ids++
+		for _, c := range cs {
+			chunks++
+			bytes += len(c.Data)
+		}
+	}
+	return
+}
+
+// VerifToken identifies a retained security token.
+type VerifToken struct {
+	ChannelID, TokenID uint32
+}
+
+// VerifInstances returns the security tokens the channel still accepts.
+func (s *SecureChannel) VerifInstances() []VerifToken {
+	s.instancesMu.Lock()
+	defer s.instancesMu.Unlock()
+	var out []VerifToken
+	for _, is := range s.instances {
+		for _, i := range is {
+			out = append(out, VerifToken{i.secureChannelID, i.securityTokenID})
+		}
+	}
+	return out
+}
+
+// VerifSetSequenceNumber sets the sequence number of the active instance (to
+// start a test close to the wrap-around point).
+func (s *SecureChannel) VerifSetSequenceNumber(n uint32) bool {
+	s.instancesMu.Lock()
+	defer s.instancesMu.Unlock()
+	if s.activeInstance == nil {
+		return false
+	}
+	s.activeInstance.Lock()
+	s.activeInstance.sequenceNumber = n
+	s.activeInstance.Unlock()
+	return true
+}
+
+// VerifActiveMaxBodySize returns the max body size of the active instance.
+func (s *SecureChannel) VerifActiveMaxBodySize() uint32 {
+	s.instancesMu.Lock()
+	defer s.instancesMu.Unlock()
+	if s.activeInstance == nil {
+		return 0
+	}
+	return s.activeInstance.maxBodySize
+}
